@@ -44,6 +44,12 @@ class MissingType:
     def __lt__(self,other):
        return False
 
+    def __ge__(self,other):
+       return True
+
+    def __le__(self,other):
+       return self == other
+
     def __eq__(self,other):
         return other is None or super().__eq__(other)
 
